@@ -14,6 +14,13 @@ structure IfRec where
 structure BlockSide where
   ifs  : Array (Option IfRec) := Array.replicate 8 none
   glob : Glob := {}
+  prevTx : List (Nat × List Nat) := []     -- frames accepted by the port during the previous op (interface, bytes)
+  curTx  : List (Nat × List Nat) := []
+
+def BlockSide.rotate (b : BlockSide) : BlockSide := { b with prevTx := b.curTx, curTx := [] }
+
+def sentOf (fx : List Fx) : List (Nat × List Nat) :=
+  fx.filterMap (fun x => match x with | .send true i f => some (i, f) | _ => none)
 
 def testBit (m k : Nat) : Bool := (m / k) % 2 == 1
 
@@ -88,8 +95,26 @@ def blockStep (w : World) (b : BlockSide) (toks : List String)
     let zero := rest == ["zero"]
     let img := recvInto rec.img frame zero
     let (st, w, fx, flt) := parseFrame rec.cfg b.glob w rec.st img
-    some (w, { b with ifs := b.ifs.set! I (some { rec with img := img, st := st }) },
+    some (w, { b with ifs := b.ifs.set! I (some { rec with img := img, st := st }), curTx := b.curTx ++ sentOf fx },
           fx.map showFx ++ (match flt with | some f => [showFault f] | none => []), [])
+  | ["note", _] => some (w, b, ["ok"], [])
+  | "relay" :: a :: bb :: rest =>
+    (parseIdx a 8).bind fun A =>
+    (parseIdx bb 8).bind fun Bi =>
+    if (b.ifs[A]?.getD none).isNone || (b.ifs[Bi]?.getD none).isNone then none else
+    let zero := rest == ["zero"]
+    let frames := (b.prevTx.filter (fun p => p.1 == A)).map (·.2)
+    let r := frames.foldl (fun (acc : World × BlockSide × List String) frame =>
+      let (w, b, out) := acc
+      match b.ifs[Bi]?.getD none with
+      | none => acc
+      | some rec =>
+        if frame.length > rec.cfg.mtu then acc else
+        let img := recvInto rec.img frame zero
+        let (st, w, fx, flt) := parseFrame rec.cfg b.glob w rec.st img
+        (w, { b with ifs := b.ifs.set! Bi (some { rec with img := img, st := st }), curTx := b.curTx ++ sentOf fx },
+         out ++ [s!"deliver {Bi} {toHex frame}"] ++ fx.map showFx ++ (match flt with | some f => [showFault f] | none => []))) (w, b, [])
+    some (r.1, r.2.1, r.2.2, [])
   | "linuxrx" :: i :: m :: s :: hex :: rest =>
     (parseIdx i 8).bind fun I =>
     (parseIdx m 16).bind fun M =>
@@ -105,7 +130,7 @@ def blockStep (w : World) (b : BlockSide) (toks : List String)
     let fm' := stepMapping fm op w.nowS
     let fs' := stepSession fs op w.nowS
     let (st, w, fx, flt) := parseFrame rec.cfg b.glob w rec.st img
-    some (w, { b with ifs := b.ifs.set! I (some { rec with img := img, st := st }) },
+    some (w, { b with ifs := b.ifs.set! I (some { rec with img := img, st := st }), curTx := b.curTx ++ sentOf fx },
           fx.map showFx ++ (match flt with | some f => [showFault f] | none => []), [(M, fm'), (S, fs')])
   | ["ev", i, hex, av, tb] =>
     (parseIdx i 8).bind fun I =>
